@@ -51,7 +51,7 @@ SUB = "history"
 BASE = {"NKeys": 2, "CommitKinds": '{"Set", "Del", "SoftDel", "Replace"}', "NLevels": 2, "RetentionNs": 0,
         "OutOfOrder": "FALSE", "EqualTs": "FALSE", "MaxClock": 3, "TickSteps": "{1}", "RuleVariant": '"repo"',
         "IndexGC": "FALSE", "Impl": '"repo"',
-        "Known": '{"expired_barrier", "index_equal_ts", "index_ooo_unflushed", "ts_filter_before_barrier", "backward_stops_at_hidden_key"}',
+        "Known": '{"expired_barrier", "index_ooo_unflushed"}',
         "MaxCommits": 3, "MaxFlushes": 2, "MaxCompactions": 1, "MaxReopens": 1, "MaxTicks": 2, "MaxSteps": 6,
         "WithReader": "FALSE"}
 INVARIANTS = ["ReadPathOK (= HistoryOK /\\ GetAtOK /\\ BackendsAgree)", "LimitOK", "OracleExact", "ErasedStaysErasedMC (action property)"]
@@ -269,6 +269,33 @@ def crash_sweep(ctx, n_scenarios, dargs, **over):
     return tot
 
 
+def teeth(ctx):
+    """The model of the read path BEFORE the repairs (Impl = "pinned", no carve-out) must still violate ReadPathOK / LimitOK;
+    every violating state TLC finds is exported with its oracle and replayed on the code as it is now, where it must not fail
+    (a failure here = one of the repaired defects is back)."""
+    c = dict(BASE, Impl='"pinned"', Known="{}", EqualTs="TRUE", MaxSteps=4)
+    text = tlc.cfg_variant(SUB, "HistoryMC.cfg", subst=c, drop=["INVARIANTS", "PROPERTY"], add=["INVARIANT Teeth"])
+    r = tlc.run(SUB, "HistoryMC", "HistoryMC_teeth.cfg", cfg_text=text, timeout=900, coverage=False, must_pass=False,
+                extra=["-continue"], out_name="hist_teeth_%s" % ctx.tier, workers=4)
+    if "Teeth" not in r["violated"]:
+        raise core.ToolError("the model of the pinned read path no longer violates ReadPathOK / LimitOK (see %s)" % r["out"])
+    dargs = ["--levels", "2"]
+    s = core.run_driver("history_run", [r["out"]] + dargs + ["--jobs", "10", "--seed", str(ctx.seed)], timeout=1800)
+    os.remove(r["out"])
+    if s["cases"] == 0:
+        raise core.ToolError("teeth: the pinned model exported no counterexample")
+    groups = (s.get("extra") or {}).pop("groups", [])
+    s["driver"] = "history_run[teeth]"
+    ctx.add_driver(s)
+    s["extra"]["groups"] = groups
+    ctx.cov["transitions"] += r["generated"]
+    ctx.cov["teeth"] = {"pinned_model_violates": ["ReadPathOK", "LimitOK"], "counterexample_states_replayed": s["cases"],
+                        "failing_on_current_code": s["violation_count"]}
+    _report(ctx, s, dargs, extra={"teeth": True})
+    core.log("[c10] teeth: the pinned model violates the read-path invariants in %d states; replayed on the current code: %d findings"
+             % (s["cases"], s["violation_count"]))
+
+
 # name, driver options, model constants, (behaviours, depth) quick, (behaviours, depth) thorough; None = edge cover (BFS)
 VARIANTS = [
     ("edge", ["--levels", "2"], {}, None, None),
@@ -315,6 +342,7 @@ def run(ctx):
         model_check(ctx, "ooo", OutOfOrder="TRUE", MaxSteps=5)
         model_check(ctx, "fin", RetentionNs=1, TickSteps="{1, 2}", MaxClock=4, MaxCompactions=2, MaxSteps=5)
         model_check(ctx, "rd", WithReader="TRUE", MaxSteps=5)
+    teeth(ctx)
     # (b2) spec -> impl: every explored transition / random behaviours on twin real Trees
     with ThreadPoolExecutor(max_workers=3) as ex:
         results = list(ex.map(lambda v: _variant(ctx, v), VARIANTS))
@@ -322,7 +350,9 @@ def run(ctx):
         if s["cases"] == 0:
             raise core.ToolError("no history scenarios exported (%s)" % name)
         s["driver"] = "history_run[%s]" % name
+        groups = (s.get("extra") or {}).pop("groups", [])     # examples carry whole scenarios: not for the evidence file
         ctx.add_driver(s)
+        s["extra"]["groups"] = groups
         ctx.cov["answers_judged"] = ctx.cov.get("answers_judged", 0) + (s.get("extra") or {}).get("answers_judged", 0)
         tot = ctx.cov.setdefault("ops_executed", {})
         for k, v in ((s.get("extra") or {}).get("ops_executed", {})).items():
@@ -346,8 +376,8 @@ def run(ctx):
         "versions with equal timestamps may be listed in either order; get_at may return either",
         "value() of a listed soft-delete tombstone is not read (it fails with an I/O error; the repository's own callers test is_tombstone() first)",
         "history / get_at of a transaction's own uncommitted writes (read-your-writes) is C08's subject and not judged here",
-        "cursor walks with direction changes are judged only where the oracle is exact; re-seeking an exhausted cursor is C09's subject "
-        "(the memtable iterator caches its upper-bound node and seek_last then finds nothing) and not exercised",
+        "cursor walks with direction changes are judged only where the oracle is exact; every walk uses a fresh cursor (re-seeking an "
+        "exhausted cursor is C09's subject)",
         "crash model: process crash (every completed file-system operation is kept), images inside the last flush of a scenario",
     ]
 
